@@ -685,13 +685,17 @@ def relax_scaled(case):
     try:
         path = mep.create_path(start, E, gradientkwargs={'shift': 1e-3 * L}, integratorfxn=integ)
         tol = max(float(n) ** -4, 1e-10) * L
-        final, _ = quiet(path.relax, relaxsteps=STEPCAP, climbsteps=STEPCAP, tolerance=tol)
+        kw = {}
+        if case.get('ts'):
+            # a caller-chosen time step well away from the default one (still inside the stable range ts*Lambda < 2)
+            kw['timestep'] = case['ts'] * path.default_timestep
+        final, _ = quiet(path.relax, relaxsteps=STEPCAP, climbsteps=STEPCAP, tolerance=tol, **kw)
     except Exception as e:
         return [Fail(key='scaled-exception:%s' % type(e).__name__, msg='relaxation on the surface scaled by L=%g raised %s: %s' % (L, type(e).__name__, e))]
     chk.note('relax-comparisons', 4)
     c = np.asarray(final.coord) / L
     lam = min(abs(x) for x in S.eig2(S.a) + S.eig2(-S.a) + S.eig2(0.0))
-    dtol = 3 * max(float(n) ** -4, 1e-10) / lam + 1e-3          # position tolerance in units of L (+ finite-difference bias)
+    dtol = 3 * max(float(n) ** -4, 1e-10) / lam + 1e-5          # position tolerance in units of L (+ finite-difference bias ~ shift^2)
     for end, m in ((0, S.minima[0]), (-1, S.minima[1])):
         if np.linalg.norm(c[end] - m) > dtol:
             fails.append(Fail(key='scaled-end-not-in-minimum', msg='L=%g %s %s: end image %d at %s L, minimum %s L (distance %.3g L)'
@@ -701,6 +705,9 @@ def relax_scaled(case):
     if np.linalg.norm(c[top] - S.saddle) > dtol:
         fails.append(Fail(key='scaled-highest-image-not-at-saddle', msg='L=%g %s %s: highest image %d at %s L, saddle %s L'
                           % (L, integ, STRINGS[case['string']], top, c[top].tolist(), S.saddle.tolist())))
+    elif np.linalg.norm(S.grad(c[top])) > 3 * max(float(n) ** -4, 1e-10) + 1e-5:
+        fails.append(Fail(key='scaled-saddle-gradient', msg='L=%g %s ts=%s: |grad V| at the highest image is %.3g (per unit length), the convergence tolerance is %.3g'
+                          % (L, integ, case.get('ts'), np.linalg.norm(S.grad(c[top])), max(float(n) ** -4, 1e-10))))
     elif abs(en[top] - S.H) > 1e-4 * S.H:
         fails.append(Fail(key='scaled-barrier', msg='L=%g: energy of the highest image %.8g L^2, barrier %.8g L^2' % (L, en[top], S.H)))
     return fails
@@ -875,6 +882,8 @@ def gen():
         yield 'gradient', {'fn': fn, 'point': pt, 'shape': sh, 'form': fo, 'shift': sf}
     for su, sc, st, ii in itertools.product(range(len(SCALED_SURFACES)), range(len(SCALES)), range(len(STRINGS) if THOROUGH else 1), range(len(RELAX_INTEGRATORS))):
         yield 'relax-scaled', {'surf': su, 'scale': sc, 'string': (st + 1) % len(STRINGS), 'integ': ii}
+        if sc == 0 or THOROUGH:
+            yield 'relax-scaled', {'surf': su, 'scale': sc, 'string': (st + 1) % len(STRINGS), 'integ': ii, 'ts': 8.0}
     for su, ii, gi, ki in itertools.product(range(len(OPT_SURFACES)), range(len(INTEG_OPTS)), range(len(GRAD_OPTS)), range(len(KW_OPTS))):
         yield 'options', {'surf': su, 'integ': ii, 'grad': gi, 'kw': ki}
 
